@@ -119,8 +119,11 @@ add_element(const std::string &name, CPPExpression *value,
 
     } else if (_last_value->_type == CPPExpression::T_binary_operation &&
                _last_value->_u._op._operator == '+' &&
-               _last_value->_u._op._op2->_type == CPPExpression::T_integer) {
-      // Prevent an endless expansion of + expressions.
+               _last_value->_u._op._op2->_type == CPPExpression::T_integer &&
+               _last_value->_u._op._op2->_u._integer < 0x7fffffffULL) {
+      // Prevent an endless expansion of + expressions.  (Not when the folded
+      // constant would no longer fit in an int: x + 0x7fffffff is followed by
+      // (x + 0x7fffffff) + 1, which is in range whenever the enumerator is.)
       value = new CPPExpression('+',
         _last_value->_u._op._op1,
         new CPPExpression(_last_value->_u._op._op2->_u._integer + 1));
